@@ -121,7 +121,7 @@ func c17(c *Ctx) (*report.Result, error) {
 						continue
 					}
 					construct := fmt.Sprintf("Unmarshal: return in block %d", b.Index)
-					r := ret.Results[0]
+					r := flow.Ret(ret)[0]
 					switch {
 					case r == ssa.Value(delegate):
 						res.Hold("O17.1", construct, instrPos(c.Prog, ret), "returns the delegate's error value unchanged")
@@ -147,8 +147,8 @@ func c17(c *Ctx) (*report.Result, error) {
 			for _, b := range f.Blocks {
 				for _, ins := range b.Instrs {
 					if ret, isR := ins.(*ssa.Return); isR {
-						e0, ok0 := ret.Results[0].(*ssa.Extract)
-						e1, ok1 := ret.Results[1].(*ssa.Extract)
+						e0, ok0 := flow.Ret(ret)[0].(*ssa.Extract)
+						e1, ok1 := flow.Ret(ret)[1].(*ssa.Extract)
 						if !ok0 || !ok1 || e0.Tuple != ssa.Value(delegate) || e1.Tuple != ssa.Value(delegate) || e0.Index != 0 || e1.Index != 1 {
 							ok = false
 						}
@@ -189,7 +189,7 @@ func checkNilOnlyAfterSuccess(c *Ctx, res *report.Result, rule string, f *ssa.Fu
 			if !ok {
 				continue
 			}
-			ev := ret.Results[len(ret.Results)-1]
+			ev := flow.Ret(ret)[len(ret.Results)-1]
 			if !flow.IsNilConst(ev) {
 				continue
 			}
@@ -406,7 +406,7 @@ func checkBlobRepairPath(c *Ctx, res *report.Result) {
 		for _, b := range g.Blocks {
 			for _, ins := range b.Instrs {
 				ret, isR := ins.(*ssa.Return)
-				if !isR || flow.IsNilConst(ret.Results[0]) {
+				if !isR || flow.IsNilConst(flow.Ret(ret)[0]) {
 					continue
 				}
 				// non-nil events: all dominating fallible calls except the last (whose error is returned alongside) succeeded
@@ -416,7 +416,7 @@ func checkBlobRepairPath(c *Ctx, res *report.Result) {
 						continue
 					}
 					e := errResultOf(cv)
-					if e == nil || ret.Results[2] == e {
+					if e == nil || flow.Ret(ret)[2] == e {
 						continue
 					}
 					if !guardedErrNil(b, e) {
@@ -437,7 +437,7 @@ func decodeErrorReturned(f *ssa.Function, deser *ssa.Call, derr ssa.Value) (bool
 			if !ok {
 				continue
 			}
-			if flow.ResolveLoad(ret.Results[len(ret.Results)-1]) != derr {
+			if flow.ResolveLoad(flow.Ret(ret)[len(ret.Results)-1]) != derr {
 				continue
 			}
 			for _, g := range flow.NormGuards(flow.Guards(b)) {
@@ -470,7 +470,7 @@ func checkCodecInUse(c *Ctx, res *report.Result) {
 			for _, ins := range b.Instrs {
 				if ret, isR := ins.(*ssa.Return); isR {
 					found := false
-					for _, alt := range flow.SliceSeqs(ret.Results[0]) {
+					for _, alt := range flow.SliceSeqs(flow.Ret(ret)[0]) {
 						for _, e := range alt.Elems {
 							if call, isC := flow.Strip(e).(*ssa.Call); isC && flow.IsCallTo(&call.Call, grpcPkg, "", "WithDefaultCallOptions") {
 								for _, a := range flow.SliceSeqs(call.Call.Args[0]) {
